@@ -93,6 +93,10 @@ pub fn run(args: &[String]) -> ! {
         ("purge+present(new)", Box::new(move |_| ModifyList::new_purge_and_set(Attribute::Uuid, Value::Uuid(new_uuid)))),
         ("removed(old)+present(new)", Box::new(move |old| ModifyList::new_list(vec![Modify::Removed(Attribute::Uuid, PartialValue::Uuid(old)), Modify::Present(Attribute::Uuid, Value::Uuid(new_uuid))]))),
         ("set(new)", Box::new(move |_| ModifyList::new_list(vec![Modify::Set(Attribute::Uuid, kanidmd_lib::valueset::ValueSetUuid::new(new_uuid))]))),
+        // the same together with a rename: a changed uuid would otherwise trip over its own name in
+        // the uniqueness check, which is an accident, not the protection the property describes
+        ("set(new)+rename", Box::new(move |_| ModifyList::new_list(vec![Modify::Set(Attribute::Uuid, kanidmd_lib::valueset::ValueSetUuid::new(new_uuid)), Modify::Purged(Attribute::Name), Modify::Present(Attribute::Name, Value::new_iname("renamed-with-uuid"))]))),
+        ("purge+present(new)+rename", Box::new(move |_| ModifyList::new_list(vec![Modify::Purged(Attribute::Uuid), Modify::Present(Attribute::Uuid, Value::Uuid(new_uuid)), Modify::Purged(Attribute::Name), Modify::Present(Attribute::Name, Value::new_iname("renamed-with-uuid"))]))),
         ("present(system uuid)", Box::new(|_| ModifyList::new_list(vec![Modify::Present(Attribute::Uuid, Value::Uuid(Uuid::from_u128(0x0000_0000_0000_0000_0000_ffff_0000_1234)))]))),
     ];
     for (target, tname) in &targets {
@@ -221,7 +225,7 @@ pub fn run(args: &[String]) -> ! {
 
     ctx.set("evaluations", evals);
     ctx.set("distinct_nontrivial", nontrivial);
-    ctx.set("rule", "acting user holds a generated profile granting search/create/modify/delete of every attribute and class on every entry. uuid edits: 7 modification kinds x 6 targets x {modify, batch modify}; creations: 9 uuids across the reserved boundary x {person, group}; deletions: every built-in entry by uuid plus one request matching all entries. Non-trivial = requests the property forbids");
+    ctx.set("rule", "acting user holds a generated profile granting search/create/modify/delete of every attribute and class on every entry. uuid edits: 9 modification kinds x 6 targets x {modify, batch modify}; creations: 9 uuids across the reserved boundary x {person, group}; deletions: every built-in entry by uuid plus one request matching all entries. Non-trivial = requests the property forbids");
     ctx.set("builtin_entries", builtins.len() as u64);
     ctx.set("mismatches", nbad);
     ctx.set("exhaustive", true);
